@@ -315,11 +315,10 @@ func c07ErrOwner(c *Ctx) {
 				if !isCall {
 					continue
 				}
-				if cal := calleeOf(&call.Call); cal == nil || qualName(cal) != "time.AfterFunc" || len(call.Call.Args) != 2 {
-					continue
-				}
-				if t := ix.resolveFnValue(call.Call.Args[1]); t != nil {
-					callbacks[t] = true
+				if cb := c.P.afterFuncArg(&call.Call); cb != nil {
+					if t := ix.resolveFnValue(cb); t != nil {
+						callbacks[t] = true
+					}
 				}
 			}
 		}
